@@ -39,6 +39,13 @@ SCENARIOS = [
     {"name": "requestor-aborts-while-peer-streams", "ops": ["find-then-abort"], "end": "none", "find_n": 400},
 ]
 SCENARIOS += [
+    # ARTIM (ACSE timeout set to 50 ms once established) has already expired when the provider looks again after its own
+    # A-ABORT / release response, because a slow notification handler held it up: Sta13 + Evt18 -> AA-2
+    {"name": "requestor-abort-short-artim-slow-handler", "ops": ["echo"], "end": "abort", "short_artim": "req",
+     "slow": {"req|AA-1": 0.15}},
+    {"name": "acceptor-abort-short-artim-slow-handler", "ops": ["echo"], "end": "wait", "server": ["abort", "idle"], "short_artim": "acc",
+     "slow": {"acc|AA-1": 0.15}},
+    {"name": "release-short-artim-slow-handler", "ops": ["echo"], "end": "release", "short_artim": "acc", "slow": {"acc|AR-4": 0.15}},
     # a second user thread of the requestor releases while its own C-ECHO is still being served by a slow handler ...
     {"name": "release-from-second-thread-during-own-echo", "ops": ["echo-bg"], "end": "release", "handler": "block"},
     # ... and the acceptor's application aborts (as AE.shutdown() would) after the A-RELEASE-RQ arrived, before the handler returns
@@ -76,6 +83,7 @@ class Recorder:
         self.events = []      # dict(seq, side, name, assoc_id, ...)
         self.n = 0
         self.on_abort_sent = None   # optional callable(side): runs inside the EVT_ACSE_SENT notification of an A-ABORT
+        self.slow = {}              # (side, fsm action) -> seconds the EVT_FSM_TRANSITION notification handler takes
 
     def make(self, side, raise_mask=None):
         from pynetdicom import evt
@@ -90,6 +98,8 @@ class Recorder:
                 rec = {"side": side, "name": _nm, "assoc": id(event.assoc)}
                 if _nm == "EVT_FSM_TRANSITION":
                     rec.update(cur=event.current_state, nxt=event.next_state, fsm_event=event.fsm_event, action=event.action)
+                    if self.slow.get((side, event.action)):
+                        time.sleep(self.slow[(side, event.action)])
                 elif _nm in ("EVT_PDU_SENT", "EVT_PDU_RECV"):
                     try:
                         rec["bytes"] = event.pdu.encode()
@@ -154,8 +164,13 @@ def run(scn, seed=0, yields=None, raise_mask_acc=None, raise_mask_req=None, watc
             ds = Dataset(); ds.QueryRetrieveLevel = "PATIENT"; ds.PatientName = "N%d" % i
             yield 0xFF00, ds
 
+    for k_, v_ in (scn.get("slow") or {}).items():
+        rec.slow[tuple(k_.split("|"))] = v_
+
     def on_established(event):
         acc_assoc["a"] = event.assoc
+        if scn.get("short_artim") == "acc":
+            event.assoc.acse_timeout = 0.05
         if scn.get("nt_response"):
             event.assoc.network_timeout_response = scn["nt_response"]
         sync["established"].set()
@@ -241,6 +256,8 @@ def run(scn, seed=0, yields=None, raise_mask_acc=None, raise_mask_req=None, watc
                     ds.file_meta = FileMetaDataset(); ds.file_meta.TransferSyntaxUID = ImplicitVRLittleEndian
                     st_ = assoc.send_c_store(ds)
                     res["req"].setdefault("status", []).append(getattr(st_, "Status", None))
+            if scn.get("short_artim") == "req":
+                assoc.acse_timeout = 0.05
             sync["go_end"].set()
             end = scn["end"]
             if end == "release":
